@@ -4,18 +4,19 @@ from sym import explore
 from pat import deref_all, canon, agg_variant
 
 
-def _is_self(t):
+def _is_self(t, arg=1):
     t = deref_all(t)
     while t[0] == 'cast':
         t = deref_all(t[2])
-    return t[0] == 'init' and t[1] == 1
+    return t[0] == 'init' and t[1] == arg
 
 
-def enum_pred(f, path, idx, depth=0):
+def enum_pred(f, path, idx, depth=0, arg=1):
     """Value (bool / int constant) that the one-argument function `path` returns when its argument is variant number `idx` of its enum;
     None when this cannot be evaluated (a condition or result that depends on anything but the discriminant)."""
+    # arg: which parameter is the enum value (1 for `fn(&self)`, 2 for a closure `|v| ..`, whose first parameter is its environment)
     b = f.bodies.get(path)
-    if b is None or b.argc != 1 or depth > 4:
+    if b is None or b.argc != arg or depth > 4:
         return None
     ps, _ = explore(b)
 
@@ -25,7 +26,7 @@ def enum_pred(f, path, idx, depth=0):
             t = deref_all(t[2])
         if t[0] == 'const':
             return t[1]
-        if t[0] == 'discr' and _is_self(t[1]):
+        if t[0] == 'discr' and _is_self(t[1], arg):
             return idx
         if t[0] == 'un' and t[1] == 'Not':
             v = val(t[2])
@@ -49,7 +50,7 @@ def enum_pred(f, path, idx, depth=0):
                 want = {'is_some': 'Some', 'is_none': 'None', 'is_ok': 'Ok', 'is_err': 'Err'}[canon(t[1]).split('::')[-1]]
                 return v[1] == want
             return None
-        if t[0] == 'call' and len(t[2]) == 1 and _is_self(t[2][0]):
+        if t[0] == 'call' and len(t[2]) == 1 and _is_self(t[2][0], arg):
             cands = [p for p in f.bodies if p == t[1] or canon(p) == canon(t[1])]
             if len(cands) == 1:
                 return enum_pred(f, cands[0], idx, depth + 1)
